@@ -127,6 +127,18 @@ Theorem c11_ctx_nil_iff_commit : forall sw adm cx bound f b,
 Proof. intros. unfold transact_ctx_with. apply nil_iff_commit. Qed.
 Print Assumptions c11_ctx_nil_iff_commit.
 
+(* through sqlc.CachedConn.TransactCtx the body's error comes back ITSELF (the very value: err ==
+   sqlc.ErrNotFound keeps working for a body that returned it) after exactly one - successful - Rollback *)
+Theorem c11_cached_returns_body_error_itself : forall sw f b e,
+  f_begin f = false -> f_rollback f = false -> fst (run_body sw b) = OErr e ->
+  fst (cached_transact_ctx sw true f b) = Some e /\
+  terminals (snd (cached_transact_ctx sw true f b)) = [Rollback true].
+Proof.
+  intros sw f b e Hb Hr Ho. unfold cached_transact_ctx, transact_ctx.
+  destruct (error_passthrough sw f b e Hb Ho) as [_ [H1 H2]]. rewrite Hr in H2. split; [apply H1; exact Hr|exact H2].
+Qed.
+Print Assumptions c11_cached_returns_body_error_itself.
+
 (* Model refines Spec: what the transcription does is allowed by the outcome table that spec_ok
    evaluates on the observations (which does not mention the switches) *)
 Theorem c11_tx_refines_spec : forall sw f b,
@@ -372,6 +384,25 @@ Example c11_mixed_example :
     ([Some (LInt 1); Some (LStr "s"); Some (LInt 3)], Ok tt) /\
   fill_struct ex_mixed2 true ["y"; "x"; "q"] [CInt 1; CStr "s"; CInt 3] (init_dest (unwrap_fields ex_mixed2)) =
     ([Some (LInt 1); Some (LStr "s"); Some (LInt 3)], Ok tt).
+Proof. repeat split. Qed.
+
+(* tags and column names are compared exactly as written: case matters *)
+Example c11_mixed_case_names :
+  let fs := [FLeaf "userId" false KInt; FLeaf "userid" false KInt; FLeaf "User_ID" false KStr] in
+  fill_struct fs true ["User_ID"; "userid"; "userId"; "USERID"] [CStr "u"; CInt 2; CInt 1; CInt 9] (init_dest (unwrap_fields fs)) =
+    ([Some (LInt 1); Some (LInt 2); Some (LStr "u")], Ok tt).
+Proof. reflexivity. Qed.
+
+(* strict mode counts the FLATTENED fields: an untagged struct embedding a two-field struct (by value or by
+   pointer) has 3 fields; 2 columns - as many as top-level fields - are refused, nothing is copied *)
+Example c11_strict_embedded_short :
+  let byval := [FLeaf "" false KInt; FEmb "" false [FLeaf "" false KInt; FLeaf "" false KStr]] in
+  let byptr := [FLeaf "" false KInt; FEmb "" true [FLeaf "" false KInt; FLeaf "" false KStr]] in
+  fill_struct byval true ["x"; "y"] [CInt 1; CInt 2] (init_dest (unwrap_fields byval)) =
+    ([Some (LInt 0); Some (LInt 0); Some (LStr "")], Err ENotMatch) /\
+  fill_struct byptr true ["x"; "y"] [CInt 1; CInt 2] (init_dest (unwrap_fields byptr)) =
+    ([Some (LInt 0); Some (LInt 0); Some (LStr "")], Err ENotMatch) /\
+  snd (fill_struct byval false ["x"; "y"] [CInt 1; CInt 2] (init_dest (unwrap_fields byval))) = Ok tt.
 Proof. repeat split. Qed.
 
 (* embedded structs are flattened, pointers allocated; fewer columns in partial mode leave the tail alone *)
